@@ -680,7 +680,183 @@ func c06(r *Run) {
 	}
 
 	c06Flavours(r)
+	c06Names(r)
+	c06DeepIncludes(r)
 	c06ModelTie(r)
+}
+
+// c06Names: "after a re-registration has returned, the new version" under BOTH of a template's names, whatever order
+// the names were introduced in, and also when the tree handed to Register* is one the registry already knows (Parse
+// returns the registered tree for a source it has seen).
+func c06Names(r *Run) {
+	srcs := []string{"[n v1 {%= tag %}]", "[n v2 {%= tag %}]", "[n v3 {%= tag %}]"}
+	render := func(byID bool, id int, key string) string {
+		ctx := dyntpl.NewCtx()
+		ctx.SetString("tag", "T")
+		var buf bytes.Buffer
+		var err error
+		if byID {
+			err = dyntpl.WriteByID(&buf, id, ctx)
+		} else {
+			err = dyntpl.Write(&buf, key, ctx)
+		}
+		if err != nil {
+			return "error: " + err.Error()
+		}
+		return buf.String()
+	}
+	// expected: the registry's own slot discipline (the refinement proved in Props/C04: a name points to a slot, a
+	// registration finds its slot by key, else by id, else takes a new one, and then points every name it was given at it)
+	perms := [][]string{{"id:0", "key:1", "both:1"}, {"key:0", "id:1", "both:1"}, {"id:0", "key:1", "both:2"}, {"both:0", "id:1", "key:2", "both:1"}, {"key:0", "both:0", "id:1", "both:0"},
+		{"id:0", "key:1", "both:1", "id:2", "key:0"}}
+	for pi, steps := range perms {
+		id, key := 7000+pi, fmt.Sprintf("c06names%d", pi)
+		var hist []string
+		var slots []string
+		slotID, slotKey := -1, -1
+		for si, st := range steps {
+			kind, v := st[:strings.IndexByte(st, ':')], int(st[len(st)-1]-'0')
+			tree, err, pan := parseSafe([]byte(srcs[v]), false) // (a source seen before comes back as the registered tree)
+			if err != nil || pan != "" {
+				r.Internal("C06 names: source does not parse")
+				return
+			}
+			out := strings.Replace(srcs[v], "{%= tag %}", "T", 1)
+			hasID, hasKey := kind != "key", kind != "id"
+			idx := -1
+			if hasKey && slotKey >= 0 {
+				idx = slotKey
+			} else if hasID && slotID >= 0 {
+				idx = slotID
+			}
+			if idx < 0 {
+				slots = append(slots, out)
+				idx = len(slots) - 1
+			} else {
+				slots[idx] = out
+			}
+			if hasID {
+				slotID = idx
+			}
+			if hasKey {
+				slotKey = idx
+			}
+			switch kind {
+			case "id":
+				dyntpl.RegisterTplID(id, tree)
+			case "key":
+				dyntpl.RegisterTplKey(key, tree)
+			default:
+				dyntpl.RegisterTpl(id, key, tree)
+			}
+			hist = append(hist, fmt.Sprintf("%s <- Parse(%q)", st, srcs[v]))
+			wantID, wantKey := "", ""
+			if slotID >= 0 {
+				wantID = slots[slotID]
+			}
+			if slotKey >= 0 {
+				wantKey = slots[slotKey]
+			}
+			gotID, gotKey := render(true, id, key), render(false, id, key)
+			r.Count(fmt.Sprintf("names:%d:%d", pi, si), true)
+			r.Dist["names-re-registration"]++
+			if (wantID != "" && gotID != wantID) || (wantKey != "" && gotKey != wantKey) {
+				r.Violate(fmt.Sprintf("conc kind=stale names perm=%d step=%d", pi, si), "after a registration has returned, a lookup by one of the template's names does not give the version the registry's slot discipline says",
+					map[string]any{"history": hist, "by_id": gotID, "by_id_expected": wantID, "by_key": gotKey, "by_key_expected": wantKey})
+				break
+			}
+		}
+	}
+}
+
+// c06DeepIncludes: renderers of a host whose include includes another template, while writers keep re-registering
+// the innermost one. Outputs are trivial; what is checked is that everybody keeps making progress (a registry lock
+// held across the rendering of an included template deadlocks against a waiting writer).
+func c06DeepIncludes(r *Run) {
+	reg := func(key, src string) bool {
+		tree, err, pan := parseSafe([]byte(src), false)
+		if err != nil || pan != "" {
+			return false
+		}
+		dyntpl.RegisterTplKey(key, tree)
+		return true
+	}
+	if !reg("c06deepC", "c0") || !reg("c06deepB", "b({% include c06deepC %})({% include c06deepC %})") || !reg("c06deepA", "a[{% include c06deepB %}][{% include c06deepB %}]") ||
+		!reg("c06deepH", "h<{% include c06deepA %}>") {
+		r.Internal("C06 deep includes: templates do not parse")
+		return
+	}
+	var stop int32
+	var renders, regs, bad int64
+	var wg sync.WaitGroup
+	for g := 0; g < 8; g++ {
+		wg.Add(1)
+		go func() {
+			defer wg.Done()
+			var buf bytes.Buffer
+			for atomic.LoadInt32(&stop) == 0 {
+				ctx := dyntpl.AcquireCtx()
+				buf.Reset()
+				err := dyntpl.Write(&buf, "c06deepH", ctx)
+				dyntpl.ReleaseCtx(ctx)
+				if err != nil || !strings.HasPrefix(buf.String(), "h<a[b(c") || !strings.HasSuffix(buf.String(), ")]>") {
+					atomic.AddInt64(&bad, 1)
+				}
+				atomic.AddInt64(&renders, 1)
+			}
+		}()
+	}
+	for w := 0; w < 3; w++ {
+		wg.Add(1)
+		go func(w int) {
+			defer wg.Done()
+			for i := 0; atomic.LoadInt32(&stop) == 0; i++ {
+				reg("c06deepC", "c"+strconv.Itoa(i%10))
+				atomic.AddInt64(&regs, 1)
+				runtime.Gosched()
+			}
+		}(w)
+	}
+	dur := time.Duration(r.N(2, 10)) * time.Second
+	end := time.Now().Add(dur)
+	lastR, lastW, lastT := int64(-1), int64(-1), time.Now()
+	stuck := false
+	for time.Now().Before(end) {
+		time.Sleep(100 * time.Millisecond)
+		nr, nw := atomic.LoadInt64(&renders), atomic.LoadInt64(&regs)
+		if nr != lastR && nw != lastW {
+			lastR, lastW, lastT = nr, nw, time.Now()
+		} else if time.Since(lastT) > 5*time.Second {
+			stuck = true
+			break
+		}
+	}
+	atomic.StoreInt32(&stop, 1)
+	done := make(chan struct{})
+	go func() { wg.Wait(); close(done) }()
+	select {
+	case <-done:
+	case <-time.After(8 * time.Second):
+		stuck = true
+	}
+	r.Count("deep-includes-stress", true)
+	r.Dist["deep_include_renders"] = int(atomic.LoadInt64(&renders))
+	r.Dist["deep_include_registrations"] = int(atomic.LoadInt64(&regs))
+	if stuck {
+		dump := make([]byte, 1<<20)
+		dump = dump[:runtime.Stack(dump, true)]
+		txt := string(dump)
+		if len(txt) > 12000 {
+			txt = txt[:12000]
+		}
+		r.Violate("conc kind=deadlock deep-includes", "renderers of nested includes and writers re-registering the innermost template stopped making progress",
+			map[string]any{"host": "h<{% include c06deepA %}>", "a": "a[{% include c06deepB %}][{% include c06deepB %}]", "b": "b({% include c06deepC %})({% include c06deepC %})",
+				"renders": atomic.LoadInt64(&renders), "registrations": atomic.LoadInt64(&regs), "goroutines": txt})
+		r.Abort()
+	}
+	if n := atomic.LoadInt64(&bad); n > 0 {
+		r.Violate("conc kind=mixed deep-includes", fmt.Sprintf("%d renders of the nested includes returned an error or a malformed output", n), map[string]any{"bad_renders": n})
+	}
 }
 
 // c06Flavours: "after a re-registration has returned, the new version" — also when the new version is the SAME source
